@@ -382,6 +382,25 @@ def template_provenance(repo, fi, recv):
                  'reinterpreted as format directives' % norm(recv, 50))
 
 
+def atomic_template_application(chk, rid):
+  """QL.Function / QL.Infix fill a template in one formatting operation.
+  Sequential textual substitution (`.replace` chains) re-scans text that was
+  just inserted: a `%s` inside a string operand is taken for a placeholder."""
+  from rules.c09 import application_styles
+  repo = chk.repo
+  for fq, param in (('expr_translate.QL.Infix', 'op'), ('expr_translate.QL.Function', 'f')):
+    fi = repo.func(fq)
+    styles = application_styles(repo, fq, param)
+    if not styles:
+      raise AnalysisError('%s: way of applying the template not recognised' % fq)
+    chk.ob(rid, 'replace' not in styles, None,
+           '%s fills its template with one %% / format operation' % fq.split('.')[-1],
+           'the template is filled by successive .replace calls: the second '
+           'substitution also scans the text of the first operand, so string '
+           'data containing the placeholder is rewritten and literals break',
+           fi=fi)
+
+
 # ---------------------------------------------------------------------------
 # R4: flags
 
@@ -474,6 +493,7 @@ def run(chk):
            'emitters is a template of the code, never compiled SQL',
            min_instances=5)
   format_receivers(chk, 'C10-R3')
+  atomic_template_application(chk, 'C10-R3')
   chk.rule('C10-R4', 'flag values: user overrides programmatic overrides '
            'defaults, undefined flags are rejected before values are returned, '
            '${flag} expansion is bounded and the only expanded form',
